@@ -561,6 +561,18 @@ func (g *Gen) pathExpr(depth int) string {
 	if depth <= 0 || !g.spend() {
 		return kernel.Pick(r, []string{".a", ".b", ".[0]", ".[]?", ".a.b", ".[1:]", ".", ".a[0]?", `.["k"]`, "..", ".[-1]", ".a?", "empty", ".[:2]", ".c.d"})
 	}
+	if g.Bias == "opt" {
+		// rewritable constructs evaluated under path tracking: what a rewrite leaves on the path
+		// stack, and which error comes first, must not depend on the rewrite
+		switch r.Weighted([]int{80, 10, 5, 5}) {
+		case 1:
+			return "(" + g.update(depth-1) + ")"
+		case 2:
+			return "(" + g.expr(depth-1) + ")"
+		case 3:
+			return kernel.Pick(r, []string{"(.a as [$p] | .b)", "(. as {a: $p} | .a)", "(if true then .a else .b end)", "(if . then .a end)", "({a: 1} | .a)", "([1] | .[0])", "(.a | select(.b?))", "first(.a, .b)", "(.a // .b)", "(.[0] as $p | .[1])", "(def pf: .a; pf)", "(def pf(x): x | .b?; pf(.a))", "(def pf($x): .[$x]?; pf(\"a\"))", "(-(.a))?", "(.a | -1)?", "(.a | [1, 2])?", "(.a | {k: 1})?", "(.a | if . then . else . end)", "limit(1; .a, .b)", "(label $pl | .a, break $pl)", "(try .a catch .b)", "(.a?)", "(reduce .a as $p (.; .b?))", "(foreach .a as $p (.; .b?))"})
+		}
+	}
 	switch r.Weighted([]int{6, 3, 3, 3, 2, 2, 2, 2, 1, 1}) {
 	case 0:
 		return g.pathExpr(0)
@@ -607,6 +619,11 @@ func (g *Gen) update(depth int) string {
 
 func (g *Gen) rhs(depth int) string {
 	r := g.r
+	if g.Bias == "opt" && r.Bool(0.2) {
+		// right-hand sides that behave differently under path tracking: path expressions, literals
+		// with suffixes, generators, errors
+		return kernel.Pick(r, []string{".b", ".[0]", ".a.b", "..", ".[]?", "first(.b)", "getpath([\"b\"])", "(.a | .b?)", ".. | numbers", "path(.a)", "[paths]", g.suffixedLiteral(), "\"abc\"[1:2]", "[1, 2][0]", "{a: 1}.a", "{a: 1} | .a", "[.b][0]", "(.b, .c)", "(.b // 1)", "(.b?)", "if .b then .b else .c end", ".b as $p | $p", "error(\"r\")", "(.b | error)?", "input?", "$__loc__", "(1 | . as $p | $p)", ".[1:]", "del(.b)", "(.b = 1)", "(.b |= 2)", "to_entries?", "select(.b?)", "recurse(.[]?; . != null) | numbers"})
+	}
 	switch r.Weighted([]int{4, 3, 2, 2}) {
 	case 0:
 		return g.literal()
